@@ -25,3 +25,6 @@ PROPS = {}
 for _f in sorted(glob.glob(os.path.join(os.path.dirname(os.path.abspath(__file__)), "props_C*.py"))):
     _m = importlib.import_module(os.path.basename(_f)[:-3])
     PROPS[_m.ID] = _m.PROP
+
+import genprops
+genprops.apply(PROPS)     # obligations over the regenerated decision logic (docs/GEN_TIE.md)
